@@ -227,7 +227,8 @@ where
             }
             Decoded::Packet(Packet::PublishRelease(pkt), size) => {
                 if self.inner.info.borrow().inflight.contains(&pkt.packet_id) {
-                    self.inner.control(ProtocolMessage::pubrel(pkt, size)).await
+                    let id = pkt.packet_id;
+                    self.inner.control_pkt(ProtocolMessage::pubrel(pkt, size), id.get()).await
                 } else {
                     Ok(Some(Encoded::Packet(codec::Packet::PublishComplete(
                         codec::PublishAck2 {
